@@ -209,7 +209,7 @@ func runC03(c *Ctx) {
 				if st, ok := in.(*ssa.Store); ok {
 					if fr, ok := core.FieldOfAddr(st.Addr); ok && fr.Is(pkBuffer, "Reader", "Msg") {
 						nSt++
-						R.Check(c.P.InPkg(fn, "buffer"), "C03.R3", fkey(fn)+":window-owner", c.at(st), "only pkg/buffer moves the message window", "store inside pkg/buffer", "Reader.Msg is stored from "+fname(fn))
+						R.Check(c.P.InPkg(fn, "buffer") || advanceOfOwnWindow(st), "C03.R3", fkey(fn)+":window-owner", c.at(st), "only pkg/buffer moves the message window (elsewhere it is at most advanced: a prefix of the current window is consumed)", "store inside pkg/buffer, or the current window with a prefix cut off", "Reader.Msg is stored from "+fname(fn))
 					}
 				}
 			}
@@ -321,6 +321,44 @@ func (c *Ctx) c03Advance() {
 		var decoded, advance *ssa.Slice
 		var decX *ssa.UnOp // the window value the decoded prefix is taken from
 		var decHigh ssa.Value
+		// bytes.Cut(Msg, sep) with a one-byte separator: by its contract before + sep + after == Msg, so decoding `before`
+		// and advancing to `after` consumes exactly the decoded bytes plus the terminator
+		cutOK := false
+		for _, ci := range core.Calls(fn) {
+			call, isCall := ci.(*ssa.Call)
+			if !isCall || !core.FuncIs(core.StaticCallee(call), "bytes", "Cut") || sp.extra != 1 {
+				continue
+			}
+			u, isU := call.Call.Args[0].(*ssa.UnOp)
+			if !isU || l.FM.Loads[u] == nil || l.FM.Loads[u].Field != "Msg" {
+				continue
+			}
+			sepOK := false
+			if su, isLoad := core.Strip(call.Call.Args[1]).(*ssa.UnOp); isLoad {
+				if g, isG := su.X.(*ssa.Global); isG {
+					if b, ok := c.sslByte(g); ok && b == 0 {
+						sepOK = true
+					}
+				}
+			}
+			found := boolEdges(resultOf(call, 2), true)
+			stored := false
+			for _, r := range core.Referrers(resultOf(call, 1)) {
+				if st, isSt := r.(*ssa.Store); isSt {
+					if fr, ok := core.FieldOfAddr(st.Addr); ok && fr.Name == "Msg" && anyDominates(found, st.Block()) {
+						stored = true
+					}
+				}
+			}
+			usesBefore := len(core.Referrers(resultOf(call, 0))) > 0
+			if sepOK && stored && usesBefore {
+				cutOK = true
+				R.OK("C03.R4", sp.name+":consume-what-you-decode", c.at(call), "the window advances by exactly the bytes decoded (plus the terminator for strings): no byte is skipped or decoded twice", "bytes.Cut(window, {0}): the decoded part is `before`, the window becomes `after` on the found edge (contract: before + sep + after == window)")
+			}
+		}
+		if cutOK {
+			continue
+		}
 		for _, b := range fn.Blocks {
 			for _, in := range b.Instrs {
 				// unsafe.String(unsafe.SliceData(Msg), n): the first n bytes of the window, as Msg[:n]
